@@ -244,6 +244,9 @@ static void cmd_ser64(int nt, char **t)
 		for (i = 0; i < ntexts; i++) if (tl[i] == len && !memcmp(texts[i], s, len)) break;
 		if (i == ntexts) { texts[ntexts] = (char *)malloc(len + 1); memcpy(texts[ntexts], s, len + 1); tl[ntexts] = len; ntexts++; }
 		idx[f] = i;
+		/* the other entry points must give the same bytes: _ext for every flag set, the plain json_object_to_json_string for SPACED (the "length" bit covers all three) */
+		{ const char *e = json_object_to_json_string_ext(H[h], f); if (!e || strlen(e) != tl[i] || memcmp(e, texts[i], tl[i])) lenok = 0; }
+		if (f == JSON_C_TO_STRING_SPACED) { const char *e = json_object_to_json_string(H[h]); if (!e || strlen(e) != tl[i] || memcmp(e, texts[i], tl[i])) lenok = 0; }
 		if (!(f & JSON_C_TO_STRING_COLOR)) {
 			struct json_tokener *tok = json_tokener_new_ex(128);
 			struct json_object *o = json_tokener_parse_ex(tok, texts[i], (int)len + 1);
